@@ -972,10 +972,11 @@ def check_forward_move(f):
     """`template <class U> f(U&& v)`: v binds to lvalues as well; `etl::move(v)` turns the caller's lvalue into an rvalue and
     the callee steals from it (push_back(x) would empty x). Such a parameter is passed on with `etl::forward<U>(v)`.
     returns None (no forwarding-reference parameter) | list of move(...) nodes applied to one"""
-    tps = [tp["n"] for tp in (f.get("tparams") or []) if tp.get("k") == "type" and not tp.get("pack")]
+    tps = [tp["n"] for tp in (f.get("tparams") or []) if tp.get("k") == "type"]
     if not tps or f.get("body") is None:
         return None
-    fw = [p["n"] for p in f["params"] if p.get("n") and re.match(r"^(%s)\s*&&$" % "|".join(map(re.escape, tps)), p["ty"].strip())]
+    # `U&& v` and the pack form `Args&&... args` (each element of the pack is a forwarding reference of its own)
+    fw = [p["n"] for p in f["params"] if p.get("n") and re.match(r"^(%s)\s*&&\s*(\.\.\.)?$" % "|".join(map(re.escape, tps)), p["ty"].strip())]
     if not fw:
         return None
     out = []
